@@ -7,8 +7,8 @@ theorem invF_pstep (sh : Sh) (ppc : PPc) (kpc : Nat → KPc) (epc : Tid → EPc)
     (hts : pstep sh ppc e = some (sh', pc', ks)) :
     InvF ⟨sh', pc', startK kpc sh.yields ks, epc⟩ := by
   obtain ⟨hbP, hbS, hbR, hbL, hbC, hbK, hl1, hl1c, hl2, hl3, hl3f, hl4, hfxK, hfxC, hfx3, hbT, hl4c, hl5⟩ := hA
-  obtain ⟨hfx, hf1, hf3, hf6k, hf6, hf4, hf5⟩ := h
-  simp only at hbP hbS hbR hbL hbC hbK hl1 hl1c hl2 hl3 hl3f hl4 hfxK hfxC hfx3 hbT hl4c hl5 hfx hf1 hf3 hf6k hf6 hf4 hf5
+  obtain ⟨hfx, hf1, hf3, hf6k, hf6, hf4, hf5, hg1⟩ := h
+  simp only at hbP hbS hbR hbL hbC hbK hl1 hl1c hl2 hl3 hl3f hl4 hfxK hfxC hfx3 hbT hl4c hl5 hfx hf1 hf3 hf6k hf6 hf4 hf5 hg1
   cases ppc with
   | idle =>
     cases e <;> simp only [pstep] at hts <;> (try contradiction) <;>
